@@ -30,11 +30,17 @@ func main() {
 		rounds, _ := strconv.Atoi(os.Args[2])
 		ms, _ := strconv.Atoi(os.Args[3])
 		initEngine(30 << 20)
+		calibrate()
 		r := gen.FromEnv(0xC04)
 		for i := 0; i < rounds; i++ {
 			cfg := stressCfg{Round: i, Seed: r.Uint64(), Writers: r.Range(2, 4), Readers: r.Range(2, 4),
 				SeriesPerW: r.Range(1, 3), LateSeries: r.Range(0, 2), DurationMs: ms,
 				FlushMinMs: 5, FlushMaxMs: r.Range(20, 120), WriterPause: []int{0, 50, 300}[r.Intn(3)]}
+			// odd rounds go through the engine API and end with Engine.Close or DeleteDatabase in flight
+			if i%2 == 1 {
+				cfg.Engine = true
+				cfg.Fin = []string{"close", "dropdb"}[r.Intn(2)]
+			}
 			out := runStress(cfg)
 			gen.Emit(out)
 		}
